@@ -245,6 +245,9 @@ fn thread_cpu_ticks(tid: u64) -> Option<u64> {
 /// called once from main: remembers what to report, starts the monitor thread
 pub fn start_hang_monitor(id: &str, tier: &str, seed: u64, root: PathBuf) {
     let _ = RUN_INFO.set((id.to_string(), tier.to_string(), seed, root));
+    // memory ceiling of the tier: quick workloads stay below 2 GiB, thorough ones below 12 GiB (one 4.4 GiB FST while its Vec doubles)
+    let ceiling_gib: u64 = std::env::var("VERIF_HEAP_CEILING_GIB").ok().and_then(|s| s.parse::<u64>().ok()).unwrap_or(if tier == "thorough" { 40 } else { 16 });
+    crate::allocmeter::set_ceiling(ceiling_gib << 30);
     let budget_ticks: u64 = std::env::var("VERIF_HANG_CPU_SECONDS").ok().and_then(|s| s.parse::<u64>().ok()).unwrap_or(if tier == "thorough" { 3 * 3600 } else { 240 }) * 100;
     let _ = std::thread::Builder::new().name("hang-monitor".into()).spawn(move || {
         // per worker: (events seen, cpu ticks when that value was first seen)
@@ -297,6 +300,40 @@ fn report_hang(tid: u64, events: u64, gap_ticks: u64) -> ! {
         ("seed".into(), J::U(seed)),
         ("level".into(), J::s("exploration")),
         ("coverage".into(), J::O(vec![("evaluations".into(), J::U(events)), ("distinct_nontrivial".into(), J::U(0)), ("rule".into(), J::s("run aborted by the non-termination monitor; counts are those of the stuck worker thread only")), ("samples".into(), J::A(vec![J::s(detail.clone())]))])),
+        ("assumptions".into(), J::A(vec![])),
+        ("wall_s".into(), J::F(0.0)),
+        ("violations".into(), J::U(1)),
+        ("verdict".into(), J::s("violated")),
+    ]);
+    let _ = std::fs::create_dir_all(root.join("evidence"));
+    let _ = std::fs::write(root.join("evidence").join(format!("{}.json", id)), evd.to_string());
+    println!("VIOLATION property={} replay={}", id, path.display());
+    println!("  signature=does-not-terminate detail={}", detail);
+    std::process::exit(1);
+}
+
+/// called by the allocator when the live heap of the process crosses the ceiling of the tier (see allocmeter::set_ceiling)
+pub fn report_runaway(live: u64, request: u64) -> ! {
+    let (id, tier, seed, root) = RUN_INFO.get().cloned().unwrap_or(("C00".into(), "quick".into(), 1, PathBuf::from("/verif")));
+    let detail = format!(
+        "runaway memory: the live heap of the monitor process reached {} MiB (request of {} bytes) inside a judged operation - far beyond anything the {} tier builds or traverses; an operation on the code under test keeps allocating instead of returning (e.g. a traversal that never ends); the run is deterministic, replaying tier={} seed={} reaches the same operation",
+        live >> 20,
+        request,
+        tier,
+        tier,
+        seed
+    );
+    let replays = root.join("replays");
+    let _ = std::fs::create_dir_all(&replays);
+    let path = replays.join(format!("{}-{}-{}-runaway.json", id, tier, seed));
+    let j = J::obj(vec![("property_id", J::s(id.clone())), ("tier", J::s(tier.clone())), ("seed", J::U(seed)), ("signature", J::s("does-not-terminate")), ("detail", J::s(detail.clone())), ("case", J::Null)]);
+    let _ = std::fs::write(&path, j.to_string());
+    let evd = J::O(vec![
+        ("property_id".into(), J::s(id.clone())),
+        ("tier".into(), J::s(tier.clone())),
+        ("seed".into(), J::U(seed)),
+        ("level".into(), J::s("exploration")),
+        ("coverage".into(), J::O(vec![("evaluations".into(), J::U(0)), ("distinct_nontrivial".into(), J::U(0)), ("rule".into(), J::s("run aborted by the runaway-memory monitor")), ("samples".into(), J::A(vec![J::s(detail.clone())]))])),
         ("assumptions".into(), J::A(vec![])),
         ("wall_s".into(), J::F(0.0)),
         ("violations".into(), J::U(1)),
@@ -455,6 +492,7 @@ pub fn finish(ctx: &Ctx, ev: Ev, spec: Spec) -> i32 {
     if let Some(x) = spec.exhaustive {
         cov.push(("exhaustive".into(), J::Bool(x)));
     }
+    cov.push(("max_live_heap_mib_of_the_monitor_process".into(), J::U(crate::allocmeter::MAX_LIVE.load(std::sync::atomic::Ordering::Relaxed) >> 20)));
     cov.push(("max_cpu_seconds_without_a_guard_event_on_any_worker".into(), J::F(MAX_GAP_TICKS.load(std::sync::atomic::Ordering::Relaxed) as f64 / 100.0)));
     cov.push(("observed".into(), J::O(ev.counters.iter().map(|(k, v)| (k.clone(), J::U(*v))).collect())));
     for (k, v) in &ev.notes {
